@@ -75,10 +75,21 @@ Definition ex_case (a1 : tree) : case :=
   {| c_pre := [SLit "a" (LList [LInt 3; LInt 1]); SCopy "b" "a"]; c_mut := [SMut (BVar "b") [KI 0] (AStore 9)];
      c_a := OVar "a"; c_b := OVar "b"; c_other_is_a := true; c_ref := false;
      i_a0 := TArr [(TKI 0, TInt 3); (TKI 1, TInt 1)]; i_b0 := TArr [(TKI 0, TInt 3); (TKI 1, TInt 1)];
-     i_a1 := a1; i_b1 := TArr [(TKI 0, TInt 9); (TKI 1, TInt 1)] |}.
+     i_a1 := a1; i_b1 := TArr [(TKI 0, TInt 9); (TKI 1, TInt 1)];
+     r_o0 := TArr [(TKI 0, TInt 3); (TKI 1, TInt 1)]; r_o1 := a1 |}.
 Example ex_check_ok : check_case (ex_case (TArr [(TKI 0, TInt 3); (TKI 1, TInt 1)])) = [].
 Proof. vm_compute. reflexivity. Qed.
-Example ex_check_leak : check_case (ex_case (TArr [(TKI 0, TInt 9); (TKI 1, TInt 1)])) = [1%nat; 2%nat].
+Example ex_check_leak : check_case (ex_case (TArr [(TKI 0, TInt 9); (TKI 1, TInt 1)])) = [1%nat; 2%nat; 3%nat].
+Proof. vm_compute. reflexivity. Qed.
+(* the other name's values are intact but its int keys came back as the strings "0", "1": the
+   normalised snapshots agree (clauses 1, 2 pass), the key-type-exact ones do not (clause 3) *)
+Example ex_check_key_types :
+  check_case {| c_pre := c_pre (ex_case TNull); c_mut := c_mut (ex_case TNull); c_a := OVar "a"; c_b := OVar "b";
+                c_other_is_a := true; c_ref := false;
+                i_a0 := TArr [(TKI 0, TInt 3); (TKI 1, TInt 1)]; i_b0 := TArr [(TKI 0, TInt 3); (TKI 1, TInt 1)];
+                i_a1 := TArr [(TKI 0, TInt 3); (TKI 1, TInt 1)]; i_b1 := TArr [(TKI 0, TInt 9); (TKI 1, TInt 1)];
+                r_o0 := TArr [(TKI 0, TInt 3); (TKI 1, TInt 1)];
+                r_o1 := TArr [(TKS "0", TInt 3); (TKS "1", TInt 1)] |} = [3%nat].
 Proof. vm_compute. reflexivity. Qed.
 
 (* ---- the hypotheses of assign_then_write hold after  $a = [3,1,2]; $b = 0;  ---- *)
